@@ -6,6 +6,7 @@ import (
 	"io"
 	"os"
 	"path/filepath"
+	"runtime"
 
 	"github.com/bluenviron/gohlslib/v2/pkg/storage"
 )
@@ -136,9 +137,78 @@ func scStore(r *Run) {
 		return rd
 	}
 
+	// a neighbour: the same factories serve other files at the same time (in the muxer: the segments of other
+	// streams and the next segment of this one). Its content is of another pattern and is checked at the end.
+	var nbFiles [2]storage.File
+	var nbParts [][2]storage.Part
+	var nbModel []byte
+	nbFinal := false
+	nbCtr := byte(T.Intn(251))
+	neighbour := func() {
+		if nbFiles[0] == nil {
+			n0, err0 := facR.NewFile("neighbour.bin")
+			n1, err1 := facD.NewFile("neighbour.bin")
+			if err0 != nil || err1 != nil {
+				r.Fail("newfile", "neighbour", "NewFile: %v %v", err0, err1)
+				return
+			}
+			nbFiles = [2]storage.File{n0, n1}
+		}
+		if nbFinal {
+			// start over with a fresh neighbour
+			nbFiles[0].Remove()
+			nbFiles[1].Remove()
+			nbFiles, nbParts, nbModel, nbFinal = [2]storage.File{}, nil, nil, false
+			return
+		}
+		switch T.Intn(4) {
+		case 0:
+			nbFiles[0].Finalize()
+			nbFiles[1].Finalize()
+			nbFinal = true
+			for k, f := range nbFiles {
+				rc, err := f.Reader()
+				if err != nil {
+					r.Fail("file-reader-open", "neighbour:"+names[k], "%v", err)
+					return
+				}
+				got, err := io.ReadAll(rc)
+				rc.Close()
+				if err != nil || !bytes.Equal(got, nbModel) {
+					r.Fail("read-bytes", names[k]+":neighbour", "the neighbour file reads back %d bytes (err %v), %d were written, or other content", len(got), err, len(nbModel))
+					return
+				}
+			}
+			r.Probe("neighbour-file-verified")
+		default:
+			pr := [2]storage.Part{nbFiles[0].NewPart(), nbFiles[1].NewPart()}
+			nbParts = append(nbParts, pr)
+			n := Pick(T, 1, 5, 100, 1000, 5000)
+			data := make([]byte, n)
+			for i := range data {
+				nbCtr = nbCtr*17 + 3
+				data[i] = nbCtr ^ 0xa5
+			}
+			for k := range pr {
+				if _, err := pr[k].Writer().Write(data); err != nil {
+					r.Fail("write", "neighbour:"+names[k], "%v", err)
+					return
+				}
+			}
+			nbModel = append(nbModel, data...)
+		}
+	}
+	defer func() {
+		if nbFiles[0] != nil {
+			nbFiles[0].Remove()
+			nbFiles[1].Remove()
+		}
+	}()
+
 	for op := 0; op < maxOps && !r.Failed(); op++ {
 		var acts []Action
 		last := len(parts) - 1
+		acts = append(acts, Action{"neighbour-file-activity", 2, neighbour})
 		if !finalized {
 			acts = append(acts, Action{"newpart", 3, func() {
 				p := &stPart{}
@@ -368,4 +438,99 @@ func kindOf(name string) string {
 		return "part-prefinal"
 	}
 	return "part-open"
+}
+
+// scStoreRace: Finalize, Remove and readers on other goroutines, truly concurrent, under the race detector (C17:
+// "readers opened before Finalize/Remove stay valid"). Several files per run; per file one step releases the
+// finaliser and 2-6 readers that open and drain part readers as fast as they can. Every reader must return
+// exactly the bytes of its part, whatever the instant of Finalize; judged at rest.
+func scStoreRace(r *Run) {
+	T := r.T
+	dir, err := os.MkdirTemp("", "verif-c17r-")
+	if err != nil {
+		panic(err)
+	}
+	r.Cleanup(func() { os.RemoveAll(dir) })
+	fac := []storage.Factory{storage.NewFactoryDisk(dir), storage.NewFactoryRAM()}[T.Intn(5)/4] // mostly disk
+	nFiles := T.Range(3, 12)
+	nReaders := T.Range(2, 6)
+	var tasks []*Task
+	for i := 0; i < nReaders; i++ {
+		tasks = append(tasks, r.Go(fmt.Sprintf("reader%d", i)))
+	}
+	fin := r.Go("finaliser")
+	type bad struct{ msg string }
+	for fi := 0; fi < nFiles && !r.Failed(); fi++ {
+		f, err := fac.NewFile(fmt.Sprintf("r%d.bin", fi))
+		if err != nil {
+			r.Fail("newfile", "race", "%v", err)
+			return
+		}
+		nParts := T.Range(1, 5)
+		var parts []storage.Part
+		var models [][]byte
+		for pi := 0; pi < nParts; pi++ {
+			p := f.NewPart()
+			n := Pick(T, 1, 7, 100, 4096, 20000)
+			data := make([]byte, n)
+			for i := range data {
+				data[i] = byte(fi*31 + pi*7 + i)
+			}
+			if _, err := p.Writer().Write(data); err != nil {
+				r.Fail("write", "race", "%v", err)
+				return
+			}
+			parts = append(parts, p)
+			models = append(models, data)
+		}
+		rounds := T.Range(1, 40)
+		remove := T.Chance(1, 3)
+		results := make([]*bad, nReaders)
+		r.Step()
+		fin.StartNoWait(func() {
+			for i := 0; i < rounds; i++ {
+				runtime.Gosched()
+			}
+			f.Finalize()
+			if remove {
+				f.Remove()
+			}
+		})
+		for ti, t := range tasks {
+			ti := ti
+			t.StartNoWait(func() {
+				for k := 0; k < 60 && results[ti] == nil; k++ {
+					pi := (ti + k) % len(parts)
+					rc, err := parts[pi].Reader()
+					if err != nil {
+						if remove {
+							return // opening after Remove may fail; readers opened before it must not
+						}
+						results[ti] = &bad{fmt.Sprintf("part %d: Reader: %v", pi, err)}
+						return
+					}
+					got, err := io.ReadAll(rc)
+					rc.Close()
+					if err != nil && remove {
+						return
+					}
+					if err != nil || !bytes.Equal(got, models[pi]) {
+						results[ti] = &bad{fmt.Sprintf("part %d of file %d: a reader opened concurrently with Finalize returned %d bytes (err %v), the part holds %d", pi, fi, len(got), err, len(models[pi]))}
+					}
+				}
+			})
+		}
+		syncWait()
+		for _, b := range results {
+			if b != nil {
+				r.Fail("read-bytes", "race:part", "%s", b.msg)
+				return
+			}
+		}
+		if !remove {
+			f.Remove()
+		}
+	}
+	r.Stats.NonTrivial = true
+	r.Probe("store-race-files")
 }
